@@ -25,6 +25,7 @@ type Expr struct {
 	Op   string   `json:"op,omitempty"`   // agg: sum count topk cv ; bin: + - * == != > < >= <= and or unless
 	Mod  string   `json:"mod,omitempty"`  // agg: none by without
 	Ls   []string `json:"ls,omitempty"`   // agg grouping / bin matching labels
+	Dup  bool     `json:"dup,omitempty"`  // agg: the first grouping label is written twice
 	Bool bool     `json:"bool,omitempty"` // bin: bool modifier
 	Vm   string   `json:"vm,omitempty"`   // bin: none on ign
 	Grp  string   `json:"grp,omitempty"`  // bin: none left right
@@ -77,6 +78,13 @@ func names(ls []string) string {
 	return strings.Join(out, ",")
 }
 
+func dupFirst(list string, dup bool) string {
+	if !dup || list == "" {
+		return list
+	}
+	return strings.SplitN(list, ",", 2)[0] + "," + list
+}
+
 func (e *Expr) selector() string {
 	var ms []string
 	for _, m := range []string{matcher("a", e.Ma), matcher("b", e.Mb)} {
@@ -117,8 +125,9 @@ func (e *Expr) Render() string {
 			return "scalar(" + e.E.Render() + ")"
 		case "absent":
 			return "absent(" + e.E.Render() + ")"
-		case "rate", "lot", "absentot":
-			fn := map[string]string{"rate": "rate", "lot": "last_over_time", "absentot": "absent_over_time"}[e.F]
+		case "rate", "lot", "absentot", "maxot", "countot", "presentot":
+			fn := map[string]string{"rate": "rate", "lot": "last_over_time", "absentot": "absent_over_time",
+				"maxot": "max_over_time", "countot": "count_over_time", "presentot": "present_over_time"}[e.F]
 			if e.E.K != "sel" {
 				panic(e.F + " needs a selector")
 			}
@@ -127,6 +136,16 @@ func (e *Expr) Render() string {
 				s += " offset 1m"
 			}
 			return fn + "(" + s + ")"
+		case "sort":
+			return "sort(" + e.E.Render() + ")"
+		case "clampmax":
+			return "clamp_max(" + e.E.Render() + ", 1)"
+		case "round":
+			return "round(" + e.E.Render() + ")"
+		case "timestamp":
+			return "timestamp(" + e.E.Render() + ")"
+		case "hq":
+			return "histogram_quantile(0.5, " + e.E.Render() + ")"
 		case "lotsub":
 			return "last_over_time((" + e.E.Render() + ")[5m:1m])"
 		case "lrep":
@@ -139,12 +158,12 @@ func (e *Expr) Render() string {
 		mod := ""
 		switch e.Mod {
 		case "by":
-			mod = " by(" + names(e.Ls) + ")"
+			mod = " by(" + dupFirst(names(e.Ls), e.Dup) + ")"
 		case "without":
-			mod = " without(" + names(e.Ls) + ")"
+			mod = " without(" + dupFirst(names(e.Ls), e.Dup) + ")"
 		}
 		switch e.Op {
-		case "sum", "count":
+		case "sum", "count", "group", "max", "min":
 			return e.Op + mod + " (" + e.E.Render() + ")"
 		case "topk":
 			return "topk" + mod + " (9, " + e.E.Render() + ")"
